@@ -18,10 +18,13 @@ type OracleC09 struct {
 	armed  bool
 	K      uint32
 	silent int
+	// primaries that entered their view while processing a recovery message (the library then
+	// arms the backup timeout for them instead of proposing at once), per (height, view)
+	viaRecovery map[hv]bool
 }
 
 func NewOracleC09(s *Sim) *OracleC09 {
-	o := &OracleC09{s: s, K: 3}
+	o := &OracleC09{s: s, K: 3, viaRecovery: map[hv]bool{}}
 	for _, k := range s.sc.Fault {
 		if k == FSilent {
 			o.silent++
@@ -77,7 +80,28 @@ func (o *OracleC09) OnOut(n *Node, st *Step, out *Out) {
 		return // O1: zero timers at block index 1, see C08
 	}
 	if int(n.d.ViewNumber) > o.silent {
-		o.s.Violate("C09", "view_higher_than_silent_count", fmt.Sprintf("%s decided height %d in view %d with %d validators silent from the start on a synchronous network", n, out.Hdr.Idx, n.d.ViewNumber, o.silent), n.id)
+		// Known finding V1: a primary that enters its view while a recovery message is being
+		// processed gets the backups' timeout instead of proposing at once (dbft.go
+		// initializeConsensus, `IsPrimary() && !recovering`), so everybody times out together
+		// and one view is wasted.  Classed known only if that happened at this height in a
+		// view the silent validators do not account for.
+		class := "view_higher_than_silent_count"
+		for v := byte(0); v < n.d.ViewNumber; v++ {
+			if o.viaRecovery[hv{out.Hdr.Idx, v}] {
+				class = "view_wasted_primary_entered_view_by_recovery"
+			}
+		}
+		o.s.Violate("C09", class, fmt.Sprintf("%s decided height %d in view %d with %d validators silent from the start on a synchronous network", n, out.Hdr.Idx, n.d.ViewNumber, o.silent), n.id)
+	}
+}
+
+func (o *OracleC09) AfterCall(n *Node, st *Step) {
+	if n.d == nil || st.Op != OpReceive || st.P == nil || st.P.T != dbft.RecoveryMessageType {
+		return
+	}
+	if st.PostBI == st.PreBI && st.PostV > st.PreV && n.d.IsPrimary() && !n.d.RequestSentOrReceived() {
+		o.viaRecovery[hv{st.PostBI, st.PostV}] = true
+		o.s.note("primary_entered_view_by_recovery")
 	}
 }
 
